@@ -398,11 +398,75 @@ def src_search(ctx):
     return len(ctx.failures) > n0
 
 
+
+def typed_none_values(ctx):
+    """Values a typed serialiser ACCEPTS although they are None / falsy: `None` under with_address_values (addr_none, two 0 bits), an
+    empty inner dictionary under a store_dict serialiser (one 0 bit), 0 under uint / coins values, an empty cell under the default
+    serialiser.  A leaf is a leaf because the key set says so, not because its value is truthy: the dictionary must equal the one the
+    RAW route (bit strings written verbatim - the route the model comparison and the canonical-form checks cover) builds from the same
+    leaf bits, and every leaf must read back with exactly those bits."""
+    HashMap, Builder, _ = _lib()
+    from pytoniq_core.boc.address import Address
+    from pytoniq_core.boc.cell import Cell
+    rng = ctx.rng
+    addr = Address((0, bytes(range(32))))
+    addr_bits = '100' + format(0, '08b') + ''.join(format(b, '08b') for b in range(32))
+
+    def kinds():
+        yield 'address', (lambda hm: hm.with_address_values()), [(None, '00'), (addr, addr_bits)]
+        yield 'dict', (lambda hm: setattr(hm, 'value_serializer', lambda src, dest: dest.store_dict(src)) or hm), [(None, '0')]
+        yield 'uint', (lambda hm: hm.with_uint_values(7)), [(0, '0000000'), (5, '0000101')]
+        yield 'coins', (lambda hm: hm.with_coins_values()), [(0, '0000'), (1, '000100000001')]
+        yield 'maybe', (lambda hm: setattr(hm, 'value_serializer', lambda src, dest: dest.store_maybe_ref(src)) or hm), [(None, '0')]
+        yield 'cell', (lambda hm: hm), [(Cell.empty(), '')]
+
+    for name, setup, vals in kinds():
+        for n in (1, 2, 8, 32):
+            for size in (1, 2, 3, 5):
+                if size > (1 << n):
+                    continue
+                for trial in range(ctx.n(2, 6)):
+                    keys = rng.sample(range(1 << n), size) if n <= 16 else [rng.randrange(1 << n) for _ in range(size)]
+                    keys = list(dict.fromkeys(keys))
+                    pick = [vals[(i + trial) % len(vals)] for i in range(len(keys))]
+                    if trial == 0:
+                        pick = [vals[0]] * len(keys)          # all values falsy
+                    inp = {'kind': 'typed-none', 'serializer': name, 'n': n, 'keys': keys, 'leaf_bits': [b for _, b in pick]}
+                    ctx.case(('typed-none', name, n, tuple(keys), tuple(b for _, b in pick)), nontrivial=True,
+                             sample={'serializer': name, 'n': n, 'keys': keys[:4]})
+                    ctx.count('typed-none:' + name)
+                    typed = setup(HashMap(n))
+                    raw = HashMap(n)
+                    raw.value_serializer = lambda src, dest: dest.store_bits(src)
+                    r = call(lambda: [typed.set(k, v) for k, (v, _) in zip(keys, pick)])
+                    if is_err(r):
+                        ctx.fail(f'typed-none:set-raised:{name}', f'set() refused a value its {name} serialiser accepts', inp, r, 'accepted')
+                        continue
+                    for k, (_, b) in zip(keys, pick):
+                        raw.set(k, b)
+                    c1, c2 = call(typed.serialize), call(raw.serialize)
+                    if is_err(c2):
+                        ctx.corr_broken(f'raw route raised on {inp}: {c2}')
+                        continue
+                    if is_err(c1):
+                        ctx.fail(f'typed-none:serialize-raised:{name}', f'serialize() raised on values the {name} serialiser accepts', inp, c1, 'cell')
+                        continue
+                    if c1.hash != c2.hash:
+                        ctx.fail(f'typed-none:cell:{name}', f'dictionary with {name} values (None / falsy among them) is not the dictionary of its leaf bits',
+                                 inp, c1.hash.hex(), c2.hash.hex())
+                        continue
+                    got = call(lambda: HashMap.parse(c1.begin_parse(), n))
+                    want = {k: b for k, (_, b) in zip(keys, pick)}
+                    if is_err(got) or {k: v.bits.to01() for k, v in got.items()} != want or list(got) != sorted(want):
+                        ctx.fail(f'typed-none:roundtrip:{name}', 'the leaves do not read back with the bits their values were written as', inp,
+                                 repr(got)[:200], repr(want)[:200])
+
 def run(ctx):
     rng = ctx.rng
     if ctx.search and src_search(ctx):
         return
     odd_key_types(ctx)
+    typed_none_values(ctx)             # None / falsy values a typed serialiser accepts are still leaves
     c09_keyopts.key_options(ctx)        # keys through the key_serializer= / key_deserializer= options
     c09_keyopts.string_key_spellings(ctx)   # every spelling int(s, 2) admits: sign, blanks, underscores, 0b
     c09_twoform.two_form_keys(ctx, run_case)    # keys well-formed in two key forms at once: filed under the declared reading only
@@ -535,6 +599,8 @@ def replay(ctx, payload):
     inp = payload.get('input') or {}
     if inp.get('kind') == 'twoform':
         c09_twoform.replay_case(ctx, inp)
+    elif inp.get('kind') == 'typed-none':
+        typed_none_values(ctx)                  # deterministic for the seed; the failing case is among them
     elif 'ins' in inp:
         run_case(ctx, inp['n'], inp['vkind'], [tuple(x) for x in inp['ins']], [(k, b, tuple(r)) for k, b, r in inp.get('base', [])],
                  inp.get('tag', 'replay'))
